@@ -307,6 +307,23 @@ def shard_entries(ctx: Ctx) -> None:  # noqa: C901, PLR0912, PLR0915
                                  sig.serialize() + b"\x00", dsa.Sig(N - 1, 1, check_validity=False), dsa.Sig(0, 1, check_validity=False),
                                  dsa.Sig(sig.r, 0, check_validity=False), dsa.Sig(sig.r, N, check_validity=False), bytes(70)])
                 key = r.choice([QK, I.sec(QK, True), I.point(True), bytes_from_point(mult(dk + 1)), I.xonly(False)])
+                craft = r.randrange(6)
+                e_ = int.from_bytes(mh32, "big") % N
+                if craft == 0 and e_:
+                    # s*R == e*G: the key this signature recovers to is the point at infinity
+                    kk = r.randrange(1, N)
+                    rr = mult(kk)[0] % N
+                    if rr:
+                        sigv = dsa.Sig(rr, e_ * pow(kk, -1, N) % N)
+                        ctx.stat("crafted:dsa-recovers-infinity")
+                elif craft == 1 and e_:
+                    # e + r*q == 0: under this key every s makes the verification point K infinite
+                    rr = mult(r.randrange(1, N))[0] % N
+                    if rr:
+                        qinf = (-e_ * pow(rr, -1, N)) % N
+                        key = r.choice([mult(qinf), bytes_from_point(mult(qinf))])
+                        sigv = dsa.Sig(rr, r.randrange(1, N))
+                        ctx.stat("crafted:dsa-verification-point-infinite")
             else:
                 sigv = r.choice([sig, sig.serialize()])
                 key = r.choice([QK, bytes_from_point(QK), bytes_from_point(QK, ec, False)])
@@ -342,6 +359,16 @@ def shard_entries(ctx: Ctx) -> None:  # noqa: C901, PLR0912, PLR0915
                                ssa.Sig(P - 1, ssig.s, check_validity=False), ssa.Sig(ssig.r, N, check_validity=False),
                                ssa.Sig(ssig.r, 0, check_validity=False), ssa.Sig(5, ssig.s, check_validity=False), bytes(64), ssig])
                 kq = r.choice([xq, I.xonly(True), bytes_from_point(QK), bytes_from_point(QK, ec, False), QK, I.point(True), QK[0]])
+                if r.randrange(5) == 0:
+                    # s == e*q for the even-y key: s*G - e*Q is the point at infinity (a nonce zeroed after its point was made)
+                    from btclib.hashes import tagged_hash as _th340
+                    rr = mult(r.randrange(1, N))[0]
+                    qe = dk if QK[1] % 2 == 0 else N - dk
+                    e_ = int.from_bytes(_th340(b"BIP0340/challenge", rr.to_bytes(32, "big") + xq + bytes(smsg)), "big") % N
+                    if e_ * qe % N:
+                        sv = ssa.Sig(rr, e_ * qe % N)
+                        kq = r.choice([xq, QK[0]])
+                        ctx.stat("crafted:ssa-verification-point-infinite")
             else:
                 sv = r.choice([ssig, ssig.serialize()])
                 kq = r.choice([xq, QK[0], bytes_from_point(QK), QK])
